@@ -152,6 +152,41 @@ def bundle(ctx, tag):
         if isinstance(root.get("definitions"), dict) and r.random() < 0.4:
             for n in list(root["definitions"])[:1]:
                 doc.setdefault("definitions", {})[n] = g.schema(tag, 1)
+    # the SAME reference string ("#/definitions/x") used by the root and by an external document, where it
+    # designates something else (each document's own definitions): a cache keyed by the string alone confuses them
+    local = []
+
+    def collect(x):
+        if isinstance(x, dict):
+            rs = x.get("$ref")
+            if isinstance(rs, str) and rs.startswith("#/"):
+                toks = [t.replace("~1", "/").replace("~0", "~") for t in unquote(rs[1:]).split("/")[1:]]
+                if len(toks) == 2 and toks[0] == "definitions":
+                    local.append((rs, toks[1]))
+            for v in x.values():
+                collect(v)
+        elif isinstance(x, list):
+            for v in x:
+                collect(v)
+    collect(root)
+    if local and r.random() < 0.6 and isinstance(root, dict):
+        rs, name = r.choice(local)
+        url = r.choice(list(docs)) if docs and r.random() < 0.7 else "http://ex.org/samestring.json"
+        target = world if url in world else store
+        doc = target.setdefault(url, {"defs": {}})
+        if isinstance(doc, dict):
+            doc.setdefault("defs", {})
+            doc.setdefault("definitions", {})
+            if isinstance(doc["defs"], dict) and isinstance(doc["definitions"], dict):
+                doc["definitions"][name] = d3_no_required(tag, g.schema(tag, 1))
+                doc["defs"]["usesSame"] = {"properties": {"p": {"$ref": rs}}}
+                if not isinstance(root.get("properties"), dict):
+                    root["properties"] = {}
+                # order matters for such a cache: sometimes the external use comes first, sometimes last
+                items = list(root["properties"].items())
+                items.insert(r.randrange(len(items) + 1), ("viaext", {"$ref": url + "#/defs/usesSame"}))
+                root["properties"] = dict(items)
+                info["kinds"].append("same-string-two-documents")
     # nested relative ids on the evaluation path (two levels) with a relative reference below them
     if base.startswith("http") and r.random() < 0.5 and isinstance(root, dict):
         sub_url = urljoin(urljoin(base, "a/"), "b/") + "leaf.json"
@@ -201,6 +236,8 @@ def campaign(ctx):
             inst = ctx.g.instance_for(tag, flat if flat is not None else root)
             if isinstance(inst, dict) and ctx.r.random() < 0.5:
                 inst.setdefault("nest", {"deep": {"leaf": ctx.g.value(1)}})
+            if isinstance(inst, dict) and "same-string-two-documents" in info["kinds"] and ctx.r.random() < 0.8:
+                inst.setdefault("viaext", {"p": ctx.g.value(1)})
             case = {"cls": tag, "schema": root, "inst": inst, "budget": None, "resolver": rspec, "world": world}
             wi = impl.World(world)
             rv = impl.make_resolver(cls, root, rspec, wi)
